@@ -216,6 +216,71 @@ def _mentions_abstract(spec: Any, t: Any) -> bool:
     return t.item is not None and _mentions_abstract(spec, t.item)
 
 
+def pattern_case(case: Any, ctx: Any = None) -> List[Tuple[str, str]]:
+    """Function-level pattern sub-property: xsd._translate_pattern(P) accepts every string that P accepts."""
+    import random
+
+    from elementpath.regex import translate_pattern
+    from vlib import regen
+
+    fails = []  # type: List[Tuple[str, str]]
+    ast, seed = case
+    rnd = random.Random(seed)
+    pat = regen.render(ast, rnd)
+    try:
+        compiled = re.compile(pat)
+    except (re.error, OverflowError, RecursionError):
+        return []
+    from aas_core_codegen.parse import retree
+
+    parsed, err = retree.parse([pat])
+    if err is not None:
+        if ctx is not None:
+            ctx.exclude("pattern-not-accepted-by-regex-front-end")
+        return []
+    from aas_core_codegen.xsd import main as xsd_main
+
+    try:
+        xp, error = xsd_main._translate_pattern(pat)
+    except BaseException as e:  # noqa
+        return [(f"pattern:translate-raises:{runner.exc_bucket(e)}", f"P={pat!r}\n{runner.exc_text(e)}")]
+    if error is not None:
+        if ctx is not None:
+            ctx.exclude("pattern-translation-reported-an-error")
+        return []
+    feats = regen.features(ast)
+    try:
+        py = translate_pattern(xp)
+        cx = re.compile(py)
+    except BaseException as e:  # noqa
+        msg = str(e)
+        if "not allowed escape sequence" in msg:
+            cause = "python-style-escape-sequence-(\\x,\\u,\\U,\\$)-not-allowed-in-XSD"
+        else:
+            cause = re.sub(r"[^A-Za-z ]+", "_", msg)[:40]
+        if ctx is not None:
+            ctx.case(True, key=pat, classes=["pattern-case", "xsd-pattern-invalid"])
+        return [(f"pattern:emitted-xsd-pattern-is-not-valid:{cause}", f"P={pat!r} X={xp!r}\n{type(e).__name__}: {e}")]
+    strs, n_pos = regen.strings(ast, rnd, n_pos=10, n_neigh=0, n_rand=0, no_line_breaks=True, no_lone_surrogates=True)
+    checked = 0
+    for sx in strs[:n_pos]:
+        if c10_bad(sx):
+            continue
+        ok, m = regen.cpu_limited(lambda: compiled.match(sx))
+        if not ok or m is None:
+            continue
+        checked += 1
+        ok2, m2 = regen.cpu_limited(lambda: cx.fullmatch(sx))
+        if ok2 and m2 is None:
+            cause = "metacharacter-from-hex-escape" if re.search(r"\\x[0-9a-fA-F]{2}", pat) else "other"
+            fails.append((f"pattern:string-of-the-language-rejected-by-xsd-pattern:{cause}", f"P={pat!r} X={xp!r} s={sx!r}"))
+            break
+    if ctx is not None:
+        ctx.case(checked > 0 and ("quantifier" in " ".join(feats) or "set" in " ".join(feats) or True), key=pat,
+                 sample={"P": pat, "X": xp, "strings": strs[:3]}, classes=["pattern-case"])
+    return fails
+
+
 def shard(ctx: runner.Ctx) -> None:
     n = ctx.n(250, 10_000)
     n_inst = N_INST_QUICK if ctx.quick else N_INST_THOROUGH
@@ -227,8 +292,25 @@ def shard(ctx: runner.Ctx) -> None:
 
     runner.hyp_run(cases(n_inst), one, n, ctx.seed)
 
+    # function-level pattern sweep (anchored, greedy, no line breaks, XML characters)
+    from vlib import regen
+
+    o = regen.Opts(anchored=True, greedy_only=True, no_line_breaks=True, surrogates=0, controls=0, inner_anchors=0,
+                   astral=6, max_depth=2)
+
+    def one_pattern(case: Any) -> None:
+        for b, m in pattern_case(case, ctx):
+            ctx.fail(b, {"pattern_case": [case[0], case[1]]}, m)
+
+    regen.with_roomy_stack(lambda: runner.hyp_run(regen.cases(o), one_pattern, ctx.n(3_000, 300_000), ctx.seed + 7))
+
 
 def replay(case: Any) -> List[Tuple[str, str]]:
+    if isinstance(case, dict) and "pattern_case" in case:
+        try:
+            return pattern_case((case["pattern_case"][0], int(case["pattern_case"][1])), None)
+        except (KeyError, TypeError, IndexError, ValueError, AssertionError, AttributeError):
+            return []
     if not isinstance(case, dict) or "spec" not in case:
         return []
     base = runner.make_scratch("c13-replay")
